@@ -2840,6 +2840,10 @@ public:
     if (as.is_smashed()) {
       CRAB_WARN("array_adaptive::backward_array_load not implemented if array "
                 "smashed");
+      // lhs is redefined by the load: forget it and meet with the
+      // forward invariant.
+      m_base_dom -= lhs;
+      m_base_dom = m_base_dom & s.right_dom;
     } else {
       // We use the forward invariant to extract the array index.
       // it's ok that invariant is not renamed here.
